@@ -20,6 +20,8 @@ def run(ctx):
     okS, outS, exeS = vlib.build_runner()
     if okS:
         vlib.seq_differential(ctx, ScaleSpec(['last']), exeS, proofs_ok, tag="scale")
+    else:
+        ctx.violation("harness-build", "the harness does not build against the current tree: " + outS[-1500:], {"build_output": outS[-4000:]}, failing_input=False)
     vlib.merge_parts(ctx, "cases = random pipelines (depth 0-4) of the real combinators over instrumented sources (empty, singleton, all-equal, alternating, run at start/end), "
                      "parameters n in {-1,0,1,..,len+1}, consumer = k Next calls (k up to len+3, past the end) or a reducer; compared: every result, the number of source pulls after every step, the source event log; "
                      "distinct = hash of (pipeline, program); non-trivial = at least one combinator and one step")
